@@ -32,8 +32,8 @@ ASSUMPTIONS = [
     "the cleaning filter is the element-wise maximum over the extra baselines of the reduced difference to the first baseline, floored at 0",
 ]
 FLOORS = {
-    "quick": {"probe_object_reused_with_new_content": 60, "baseline_list_untouched": 350, "second_analysis_from_same_baselines": 100, "trace_automaton": 350, "result_is_composition": 220, "baseline_maps_to_zero": 250, "probe_unchanged": 350, "diff_option_identities": 60},
-    "thorough": {"probe_object_reused_with_new_content": 600, "baseline_list_untouched": 3500, "second_analysis_from_same_baselines": 1000, "trace_automaton": 3500, "result_is_composition": 2200, "baseline_maps_to_zero": 2500, "probe_unchanged": 3500, "diff_option_identities": 600},
+    "quick": {"earlier_result_intact": 300, "probe_object_reused_with_new_content": 60, "baseline_list_untouched": 350, "second_analysis_from_same_baselines": 100, "trace_automaton": 350, "result_is_composition": 220, "baseline_maps_to_zero": 250, "probe_unchanged": 350, "diff_option_identities": 60},
+    "thorough": {"earlier_result_intact": 3000, "probe_object_reused_with_new_content": 600, "baseline_list_untouched": 3500, "second_analysis_from_same_baselines": 1000, "trace_automaton": 3500, "result_is_composition": 2200, "baseline_maps_to_zero": 2500, "probe_unchanged": 3500, "diff_option_identities": 600},
 }
 DIFFS = ["absolute", "positive", "negative", "plain"]
 
@@ -106,6 +106,12 @@ def run_shard(spec, R):
             return darsia.ScalarImage(arr, dimensions=[1.0, 2.0], name="x")
 
         base_arrs = [rnd() for _ in range(1 + nextra)]
+        if nextra and it["id"] % 4 == 3 and not np.issubdtype(base_arrs[0].dtype, np.bool_):
+            # extra baselines that are nowhere brighter than the reference baseline (their positive / plain difference is
+            # nowhere positive, the learned cleaning threshold is identically zero)
+            for q in range(1, 1 + nextra):
+                if base_arrs[q].dtype == base_arrs[0].dtype:
+                    base_arrs[q] = np.minimum(base_arrs[q], base_arrs[0])
         probe_arr = rnd()
         # ---- stages
         wred = np.array([0.5, 0.25, 0.25])
@@ -179,6 +185,14 @@ def run_shard(spec, R):
         else:
             R.ok("result_is_composition:real_stages_traced_only")
 
+        # a result handed out stays what it was when the same analysis object processes another probe
+        if ok:
+            first_out = np.array(out.img, copy=True)
+            other_probe = image(rnd())
+            ok_o, _o = R.guarded("call", lambda: ca(other_probe), key=lambda e, w: key)
+            if ok_o:
+                R.check(np.array_equal(np.asarray(out.img), first_out, equal_nan=True), "earlier_result_intact", cfg, key=key, group=grp)
+            del trace[len(tr):]
         # a second analysis built from the same list of baselines behaves like the first
         if nextra and ok and it["id"] % 2 == 0:
             ok2, cb = R.guarded("construct", lambda: darsia.ConcentrationAnalysis(bases, red, bal, res, mod, None, **{"diff option": it["diff"], "restoration -> model": it["order"]}),
